@@ -229,6 +229,20 @@ func c16Mutate(dst filesystem.FileSystem, mut string, tree []fsx.Entry) (bool, e
 		return true, dst.Mkdir("EXTRADIR")
 	case "extra-excluded-file":
 		return true, rewrite("DIR/.DS_Store", []byte("finder droppings"))
+	case "extra-after-excluded-file":
+		// the target directory holds an excluded-name file AND a real extra entry that sorts after it
+		if err := rewrite("DIR/.DS_Store", []byte("finder droppings")); err != nil {
+			return true, err
+		}
+		return true, rewrite("DIR/zz-extra.new", []byte("extra"))
+	case "extra-dir-after-excluded-file":
+		if err := rewrite(".DS_Store", []byte("finder droppings")); err != nil {
+			return true, err
+		}
+		if err := dst.Mkdir("zz-extra-dir"); err != nil {
+			return true, err
+		}
+		return true, rewrite("zz-extra-dir/inside", []byte("extra"))
 	case "extra-excluded-dir":
 		if err := dst.Mkdir("lost+found"); err != nil {
 			return true, err
